@@ -331,6 +331,9 @@ func (g *xGen) c16w5Refusal(t *hTx) bool {
 
 // c16w5Shape is applied to every generated transaction of profile c16 (mixed: c16Mix has turned it into a mixed transaction)
 func (g *xGen) c16w5Shape(t *hTx, stats map[string]int) {
+	if g.c16w9Shape(t, stats) { // operations deferred into pre-commit actions (store_c16w9.go)
+		return
+	}
 	_, mixed := c16ModesOf(t)
 	aimed := false
 	if !mixed {
